@@ -121,11 +121,11 @@ impl Property for C05 {
         }
     }
     fn rule(&self) -> &'static str {
-        "each case: a generated valid instance (0-6 variables of all kinds incl. semi-kinds, bounds absent/finite/half-infinite/degenerate/fractional, 0-4 active and 0-3 removed constraints of both equality kinds with metadata, absent functions, extra constraints whose value is exactly +-1e-6*{0,0.5,0.999,1,1.001,2}, unused variables that are fixed (substituted_value) or dependent) and one state chosen from: complete in-bound / omitting unused variables / one value 2e-7 outside a finite bound end / 0.5e-7 outside / one used variable missing. The returned Solution (or Err) is compared with a reference evaluation in exact rationals; feasibility flags are recomputed from the reported values with the stated rule. Non-trivial = instance has >= 1 constraint or a non-constant objective; distinct = fingerprint of (encoded instance, state, scenario)."
+        "each case: a generated valid instance (0-6 variables of all kinds incl. semi-kinds, bounds absent/finite/half-infinite/degenerate/fractional, 0-4 active and 0-3 removed constraints of both equality kinds with metadata, absent functions, extra constraints whose value is exactly +-1e-6*{0,0.5,0.999,1,1.001,2}, unused variables that are fixed (substituted_value) or dependent) and one state chosen from: complete in-bound / omitting unused variables / one value (possibly that of an echoed fixed variable) 2e-7 outside a finite bound end / 0.5e-7 outside / one used variable missing; one state in five also echoes fixed variables. The returned Solution (or Err) is compared with a reference evaluation in exact rationals; feasibility flags are recomputed from the reported values with the stated rule. Non-trivial = instance has >= 1 constraint or a non-constant objective; distinct = fingerprint of (encoded instance, state, scenario)."
     }
     fn assumptions(&self) -> Vec<&'static str> {
         vec![
-            "instances are valid (unique ids, defined variables, valid bounds); states never give a value for a fixed or dependent variable",
+            "instances are valid (unique ids, defined variables, valid bounds); states never give a value for a dependent variable (one state in five gives in-bound or, in the out-of-bound scenarios, out-of-bound values for fixed variables: the fixed value is reported, the bound check applies)",
             "values are compared bit-exactly where the dyadic certificate holds, within gamma_k*sum|c|prod|x| otherwise; flags are judged against the values the Solution itself reports",
             "out-of-bound probes sit at 2e-7 / 0.5e-7 beyond a finite bound end, never within 4 ulp of the 1e-7 threshold",
         ]
@@ -151,6 +151,20 @@ impl Property for C05 {
             .filter(|id| !hidden.contains(id))
             .filter(|id| used.contains(id) || dep_sources.contains(id) || scenario % 2 == 0 || rng.bool())
             .collect();
+        // one case in five: the state also gives (in-bound) values for fixed variables, e.g. a
+        // Solution's state fed back; the fixed value is what counts, the bound check still applies
+        let mut give = give;
+        if rng.chance(1, 5) {
+            let fixed: Vec<u64> = inst.decision_variables.iter().filter(|v| v.substituted_value.is_some()).map(|v| v.id).collect();
+            if !fixed.is_empty() {
+                for id in fixed {
+                    if rng.chance(2, 3) {
+                        give.insert(id);
+                    }
+                }
+                mon.facet("state-echoes-fixed-variables");
+            }
+        }
         let mut st = gen_state_in_bounds(rng, &inst, Some(&give), regime);
         // values for ids the instance does not define are legal in a state and must be kept
         if rng.chance(1, 5) {
